@@ -602,8 +602,32 @@ fn factorapi(rng: &mut Rng, iters: u64) {
     }
 }
 
+/// P+1 on inputs whose p + 1 is smooth for the chosen seed (from the repository's own test): a broken Lucas chain
+/// (pp1::chebyshev_modn) makes these fail
+fn pp1_case() {
+    use std::str::FromStr;
+    use yamaquasi::Verbosity;
+    let p128 = Uint::from_str("192361420203955321314102766284003105319").unwrap();
+    for (p, seed, b1, b2) in [(4106365409u64, 9u64, 1500u64, 30e3f64), (2271133, 3, 1500, 30e3), (4274273, 3, 1500, 30e3)] {
+        let n = Uint::from(p) * p128;
+        let r = catch_unwind(AssertUnwindSafe(|| yamaquasi::pp1::pp1(n, seed, b1, b2, Verbosity::Silent)));
+        match r {
+            Err(_) => fail("pp1", format!("pp1({n}, seed {seed}, B1 {b1}, B2 {b2}): panic")),
+            Ok(None) => fail("pp1", format!("pp1({n}, seed {seed}, B1 {b1}, B2 {b2}) = None although p + 1 is B1/B2-smooth for p = {p}")),
+            Ok(Some((fs, q))) => {
+                let mut prod = q;
+                for f in &fs { prod *= *f; }
+                if prod != n || fs.iter().any(|f| *f <= Uint::ONE) {
+                    fail("pp1", format!("pp1({n}, ..) = ({fs:?}, {q})"));
+                }
+            }
+        }
+    }
+}
+
 pub fn run(case: &str, rng: &mut Rng, iters: u64) -> bool {
     match case {
+        "pp1" => pp1_case(),
         "factorapi" => factorapi(rng, iters),
         "rhofail" => rhofail(rng, iters),
         "gcdfactors" => gcdfactors(rng, iters),
